@@ -5,8 +5,10 @@
 //!
 //! A reply line is `<observable>` optionally followed by `\t#FAIL:<key>:<explanation>` when the
 //! implementation-side property oracle fails for that request.
+mod c11;
 mod c12;
 mod c19;
+mod jose_util;
 mod rng;
 
 use std::io::BufRead;
@@ -19,6 +21,7 @@ fn run_line(prop: &str, line: &str) -> String {
   }
   let args = &toks[1..];
   let r = std::panic::catch_unwind(|| match prop {
+    "C11" => c11::run(args),
     "C12" => c12::run(args),
     "C19" => c19::run(args),
     _ => "bad-request".to_string(),
@@ -44,6 +47,7 @@ fn main() {
       let seed: u64 = args.get(4).and_then(|s| s.parse().ok()).unwrap_or(0);
       let thorough = tier == "thorough";
       match prop {
+        "C11" => c11::gen(thorough, seed, &mut out),
         "C12" => c12::gen(thorough, seed, &mut out),
         "C19" => c19::gen(thorough, seed, &mut out),
         _ => {
